@@ -76,6 +76,39 @@ def no_type_assignments(text):
     return not re.search(r"(?m)^\s*[A-Z][\w-]*\s*(\{[^}]*\}\s*)?::=", re.sub(r"^.*?\bBEGIN\b", "", strip_comments(text), flags=re.S))
 
 
+def bound_exceeds_long(text):
+    """a constraint bound written as a literal outside [-2^63, 2^63-1]"""
+    for m in re.finditer(r"[(.|]\s*(-?\d{19,})\b", strip_comments(text)):
+        v = int(m.group(1))
+        if v > 2**63 - 1 or v < -2**63:
+            return True
+    return False
+
+
+def choice_refs(text):
+    """names of the type assignments that are a plain (untagged, unconstrained) reference to a CHOICE type, directly or through such references"""
+    defs = dict(parse_defs(text))
+    out = set()
+    for n in defs:
+        x, seen = n, set()
+        while x in defs and x not in seen:
+            seen.add(x)
+            rhs = defs[x].strip()
+            if re.match(r"CHOICE\s*\{", rhs):
+                if x != n:
+                    out.add(n)
+                break
+            if not re.match(r"[A-Z][\w-]*$", rhs):
+                break
+            x = rhs
+    return out
+
+
+def diagnostics(stderr):
+    """asn1c reports progress (Copied/Generated/Compiled ...) on stderr too: a diagnostic is any other line"""
+    return [l for l in stderr.split("\n") if l.strip() and not re.match(r"\s*(Copied|Generated|Compiled|Symlinked|Refreshed)\b", l)]
+
+
 def match_finding(stage, job):
     """-> finding id or None.  Each rule = symptom signature (the site) AND a predicate on (module text, options)."""
     text, opts = job["mod"]["text"], job["opts"]
@@ -101,6 +134,13 @@ def match_finding(stage, job):
             return "C10-param-circular-include"
         if re.search(r"empty enum is invalid|asn_MAP_\w+_tag2el_\d+. undeclared", blog) and has_empty_set(text):
             return "C10-empty-set"
+    if stage == "descr":
+        bad = job["failing_descrs"]       # [(clause, kind, name, term)]
+        if bad and all(c == 7 and k == "KChoice" and n in choice_refs(text) and re.search(r"\] None (None|\(Some \(mkO [^)]*\)\)\)) \(SChoice", t) for c, k, n, t in bad) \
+           and "-no-gen-PER" not in opts:
+            return "C10-choice-ref-no-per"
+        if set(job["failing_clauses"]) <= {4, 6} and bound_exceeds_long(text):
+            return "C10-per-bound-exceeds-long"
     return None
 
 
@@ -166,7 +206,7 @@ def main(tier):
                    "asn1c did not terminate by exit (rc=%d: signal, failed assertion or timeout)" % rc)
             continue
         if rc != 0:
-            if not j.get("stderr", "").strip():
+            if not diagnostics(j.get("stderr", "")):
                 run.count("%s:refused-silently" % okey)
                 report("silent", "asn1c:no-diagnostic", "asn1c exited %d without printing a diagnostic on stderr" % rc, {"asn1c_stdout": j.get("stdout", "")[-600:]})
             else:
@@ -216,6 +256,13 @@ def main(tier):
         run.count("obligation-" + st)
         if st == "error":
             run.violation("translator:Gen_Descr(coqc)", dict(replay, what="generated obligation file does not compile", coqc_tail=log), no_input=True)
+            continue
+        j["failing_clauses"] = [c for _, c in diag]
+        j["failing_descrs"] = [(c, names_.get(d, ("?", "?"))[0], names_.get(d, ("?", "?"))[1], tables[i][3][d] if d < len(tables[i][3]) else "") for d, c in diag]
+        fid = match_finding("descr", j)
+        if fid and fid in known_ids:
+            run.known_finding(fid, tables[i][0])
+            run.count("known:" + fid)
             continue
         bad = [{"descriptor": names_.get(d, ("?", "?"))[1], "kind": names_.get(d, ("?", "?"))[0], "index": d, "clause": c, "clause_text": CLAUSES.get(c, "?")} for d, c in diag[:8]]
         run.violation("translator:Gen_Descr(clause %s)" % ",".join(sorted({str(c) for _, c in diag})),
